@@ -762,8 +762,12 @@ func r7(c *core.Ctx, p *Parser) {
 					continue
 				}
 				call, isCall := ast.Unparen(or.Expr).(*ast.CallExpr)
+				if !isCall {
+					ok = false
+					continue
+				}
 				f := core.CalleeFunc(info, call)
-				if !isCall || f == nil || f.Pkg() == nil || !strings.HasSuffix(f.Pkg().Path(), "redis-shake/filter") {
+				if f == nil || f.Pkg() == nil || !strings.HasSuffix(f.Pkg().Path(), "redis-shake/filter") {
 					ok = false
 				}
 			}
